@@ -33,6 +33,13 @@ Theorem C10_flood_input_not_modified : forall h L pt h' L',
 Proof. exact flood_h_framed. Qed.
 Print Assumptions C10_flood_input_not_modified.
 
+(* the premise is met by every list of Events, whatever the aliasing (the same object several
+   times included): on a closed acyclic heap flood returns, so the statement above applies *)
+Theorem C10_flood_returns : forall h L pt vs,
+  wf h -> list_at h L = Some vs -> exists h' L', flood_h h L pt = Ok (h', L').
+Proof. exact flood_h_total. Qed.
+Print Assumptions C10_flood_returns.
+
 (* the frame in the vocabulary of the ownership theorem (Proofs/MemHeapFrame.v): flood is
    confined to the empty set of roots *)
 Theorem C10_flood_confined : forall h h', framed h h' -> confined h [] h'.
@@ -68,6 +75,15 @@ Theorem C10_flood_refines : forall h L pt vs,
 Proof. exact flood_h_refines. Qed.
 Print Assumptions C10_flood_refines.
 
+(* C10's domain ("distinct timestamps") implies the distinctness: inside the domain of the
+   property the refinement holds for every aliasing Python allows, and the argument reads
+   back unchanged *)
+Theorem C10_flood_refines_in_domain : forall h L pt vs,
+  wf h -> list_at h L = Some vs -> NoDup (map ts vs) ->
+  exists h' L', flood_h h L pt = Ok (h', L') /\ list_at h' L' = Some (flood vs pt) /\ list_at h' L = Some vs.
+Proof. exact flood_h_refines_distinct_ts. Qed.
+Print Assumptions C10_flood_refines_in_domain.
+
 (* an instance of the transfer (C10_out_nonoverlapping_positive), with the frame *)
 Theorem C10_flood_heap_out_nonoverlapping_positive : forall h L pt vs,
   wf h -> list_at h L = Some vs ->
@@ -89,6 +105,15 @@ Theorem C10_deepcopy_memo_total : forall h l, wf h -> l < length h ->
   exists h' m l', deepcopy_memo h l = Ok (h', m, l').
 Proof. exact deepcopy_memo_total. Qed.
 Print Assumptions C10_deepcopy_memo_total.
+
+(* sharing inside the copy is exactly the sharing inside the original (the same Event twice in
+   the list -> the same copy twice; two events with one data dict -> two copies with one
+   copied dict), so what the result shares internally is determined by the argument *)
+Theorem C10_deepcopy_memo_bijective : forall h l h' m l',
+  wf h -> deepcopy_memo h l = Ok (h', m, l') ->
+  forall a a' b b', In (a, a') m -> In (b, b') m -> (a = b <-> a' = b').
+Proof. exact deepcopy_memo_bijective. Qed.
+Print Assumptions C10_deepcopy_memo_bijective.
 
 (* Non-vacuity.  ex_heap: one data dict shared by two events a = (1000, 2000) and
    b = (4000, 1000); location 3 is the list [a; b], location 4 the list [a; b; a], 5 an empty list. *)
